@@ -4,7 +4,8 @@ import "time"
 
 // The simulated clock: time.Now / time.Since / time.Until in the instrumented library are
 // rewritten to these. Inside a run the clock is a pure function of the simulation:
-// a fixed epoch + 1 microsecond per executed yield + the jumps injected by the fault plan
+// a fixed epoch + 1 microsecond per executed yield + 1 millisecond per finished call + the
+// jumps injected by the fault plan
 // (forwards and backwards). It keeps advancing from run to run within a process.
 
 var (
